@@ -101,6 +101,11 @@ struct Outcome {
 
 /// runs the operation on the implementation with `fail_at` (-1 = none)
 fn run_impl(c: &AtomCase, fail_at: i64) -> Result<Outcome, Fail> {
+    run_impl_slow(c, fail_at, 0)
+}
+
+/// `slow_us`: every optimise callback of the operation itself takes that long
+fn run_impl_slow(c: &AtomCase, fail_at: i64, slow_us: u32) -> Result<Outcome, Fail> {
     let ctl = Ctl::new();
     let n = HN::new();
     let (dest, _) = build_both(&c.dest, &ctl, &n);
@@ -152,7 +157,9 @@ fn run_impl(c: &AtomCase, fail_at: i64) -> Result<Outcome, Fail> {
                 AtomOp::MergeExternal { classes, history } => {
                     before = n.get();
                     ctl.reset(fail_at);
+                    ctl.slow_us.store(slow_us, std::sync::atomic::Ordering::Relaxed);
                     let r = store.merge_external(c.dest.id, &src, classes.as_deref(), *history);
+                    ctl.slow_us.store(0, std::sync::atomic::Ordering::Relaxed);
                     callbacks = ctl.count();
                     sends = n.get() - before;
                     ctl.reset(-1);
@@ -163,7 +170,14 @@ fn run_impl(c: &AtomCase, fail_at: i64) -> Result<Outcome, Fail> {
                     store.add_track(src.clone()).map_err(|e| Fail::new("harness", format!("{}", e)))?;
                     before = n.get();
                     ctl.reset(fail_at);
+                    ctl.slow_us.store(slow_us, std::sync::atomic::Ordering::Relaxed);
                     let r = store.merge_owned(c.dest.id, c.src.id, classes.as_deref(), *remove, *history);
+                    ctl.slow_us.store(0, std::sync::atomic::Ordering::Relaxed);
+                    // a result that arrives late is still the result: give the worker time to finish
+                    // whatever it may still be doing before the store is read
+                    if slow_us > 0 && r.is_err() {
+                        std::thread::sleep(std::time::Duration::from_micros(slow_us as u64 + 200_000));
+                    }
                     callbacks = ctl.count();
                     sends = n.get() - before;
                     ctl.reset(-1);
@@ -322,15 +336,59 @@ pub fn check_atom(c: &AtomCase) -> CaseResult {
         .label_if(!m_ok, "fails_without_injection"))
 }
 
+/// A slow callback is not a failed one: the same store merge with an optimise step that takes
+/// seconds must end exactly like the fast run.
+#[derive(Clone, Debug, Serialize, Deserialize)]
+pub struct SlowCase {
+    pub case: AtomCase,
+    pub slow_ms: u32,
+}
+
+pub fn check_slow(c: &SlowCase) -> CaseResult {
+    let fast = run_impl(&c.case, -1)?;
+    if !fast.ok || fast.callbacks == 0 {
+        return Ok(CaseOk::trivial().label("no_successful_slow_step"));
+    }
+    let slow = run_impl_slow(&c.case, -1, c.slow_ms * 1000)?;
+    ensure!(slow.ok, "slow-merge-reported-failed", "the merge succeeds when its optimise step is fast but is reported as failed when that step takes {} ms (no callback failed)", c.slow_ms);
+    ensure!(slow.dest == fast.dest && slow.src_stored == fast.src_stored && slow.returned_src == fast.returned_src, "slow-merge-state", "with an optimise step of {} ms the store ends up differently: dest {:?} vs {:?}, source stored {:?} vs {:?}", c.slow_ms, slow.dest, fast.dest, slow.src_stored.is_some(), fast.src_stored.is_some());
+    ensure!(slow.sends == fast.sends, "slow-merge-notifications", "{} notifications with a slow optimise step, {} with a fast one", slow.sends, fast.sends);
+    Ok(CaseOk::new(true).label(match c.case.op { AtomOp::MergeOwned { .. } => "merge_owned", _ => "merge_external" }))
+}
+
+fn slow_case(slow_ms: u32) -> impl Strategy<Value = SlowCase> {
+    // one requested class that the source has: exactly one optimise call, hence one sleep
+    (track_desc(1), track_desc(2), 1usize..=3, any::<bool>(), any::<bool>(), any::<bool>()).prop_map(move |(mut dest, mut src, shards, owned, remove, history)| {
+        dest.poison = false;
+        src.poison = false;
+        src.group = dest.group;
+        src.obs.retain(|o| o.1 != Some(666));
+        dest.obs.retain(|o| o.1 != Some(666));
+        if !src.obs.iter().any(|o| o.0 == 0) {
+            src.obs.push((0, Some(3), Some(1)));
+        }
+        let classes = Some(vec![0u64]);
+        let op = if owned { AtomOp::MergeOwned { classes, remove, history } } else { AtomOp::MergeExternal { classes, history } };
+        SlowCase { case: AtomCase { dest, src, shards, op }, slow_ms }
+    })
+}
+
 pub fn run(env: &Env, rep: &Report) {
     rep.set_rule("tracks with 0..3 feature classes and 0..3 observations each; operations add_observation / Track::merge / store.add (existing and missing id) / merge_external / merge_owned with class lists present in both/one/neither track and both history settings; after a fault-free run numbers the callback invocations, every position k is replayed with 'callback k fails' (exhaustive per case). Oracle: pre-state equality after failure (attributes, observations per class, metric state, merge history), zero notifications on failure / exactly one on success, success state equal to the sequential model. Non-trivial: a fault at a position > 0, or >=2 requested classes present, or history off with an absent class; distinct = distinct serialized case");
     rep.assume("harness-owned attribute/update/metric types (store_kit.rs) leave half-applied changes behind when they fail, so a missing restore is visible; metric state is observed through a follow-up optimise call on a clone; the history length seen by optimise during a merge is not compared (not pinned by the statement)");
     par_generated(rep, "faults", atom_case, env.tier.pick(20_000, 600_000), workers(), check_atom);
+    // a few merges whose optimise step takes seconds (one per worker, in parallel)
+    par_generated(rep, "slow-callbacks", || slow_case(2_600), workers() as u32, workers(), check_slow);
+    if env.tier == Tier::Thorough {
+        par_generated(rep, "slow-callbacks", || slow_case(11_000), workers() as u32, workers(), check_slow);
+        par_generated(rep, "slow-callbacks", || slow_case(700), 4 * workers() as u32, workers(), check_slow);
+    }
 }
 
 pub fn replay(sub: &str, case: Value) -> Option<CaseResult> {
     match sub {
         "faults" => Some(replay_case(case, check_atom, sub)),
+        "slow-callbacks" => Some(replay_case(case, check_slow, sub)),
         _ => None,
     }
 }
